@@ -1,6 +1,6 @@
 """C17 The portable (non-SIMD) code path computes the same function."""
 import astq
-from rules import aes, decode, driver, interpsem, portable
+from rules import aes, decode, driver, interpsem, portable, dsinit
 
 LEVEL = 'other'
 TECHNIQUE = 'type-checking and resolved-AST rules on a second configuration (generic fallback macros) that no test compiles: lane-symmetry of the vector emulation, rounding-mode map vs spec table, dominance rules on the fenv driver, FIPS-197 decomposition of the soft AES round with the fallback lane accessors; bit-routing proof / counterexample search for the integer helpers'
@@ -13,7 +13,7 @@ CLAIM = ('Decides statically, on the generic configuration (no SSE2/AES/int128 -
          ' Byte order: the big-endian branches of load32 / load64 / store32 / store64, of the 128-bit vector load / store wrappers and of the two casts between the integer and the floating-point vector are evaluated byte by byte on a big-endian cross configuration (s390x parse, native-order union layout) and must produce / consume the little-endian image (PORT-ENDIAN); the suite never compiles these branches.')
 LEVEL_NOTE = 'Trusted: clang AST with -U__SSE2__ -U__SSE__ -U__AES__ -U__SIZEOF_INT128__ -U__x86_64__ (host libstdc++ headers + two stub headers); IEEE-754 double arithmetic of the host; glibc fenv.'
 EXPLANATION = ('PORT-TYPECHECK (25 units), DRV-FPENV/DRV-RESET on K1, PORT-ROUND, PORT-LANEOPS, PORT-CVT, PORT-INT, AES-ROUND on K1, decoder rules on K1.'
-         ' INT-EXEC, FP-EXEC on K1. PORT-ENDIAN on K6 (big-endian cross parse).')
+         ' INT-EXEC, FP-EXEC on K1. PORT-ENDIAN on K6 (big-endian cross parse). SPEC-DSCONST / DS-ITEM on K1.')
 
 TECHNIQUE += '; byte-accurate abstract evaluation of the byte-order branches on a big-endian cross parse (s390x)'
 
@@ -31,3 +31,4 @@ def run(ctx, R):
     interpsem.rule_int_exec(ctx, R, F1)
     interpsem.rule_fp_exec(ctx, R, F1)
     portable.rule_endian(ctx, R)
+    dsinit.rule_dsconst(ctx, R, F1)      # dataset item construction as the portable configuration compiles it (its prefetch / vector macros expand differently)
